@@ -48,7 +48,8 @@
 (*   Prog          request sequences of regclient.ManifestGet/Head/Put,    *)
 (*                 BlobGet (with the external URL fall back of             *)
 (*                 scheme/reg/blob.go:BlobGet), BlobHead, BlobPut,         *)
-(*                 ImageCopy (image.go:imageCopyOpt, blob.go:BlobCopy)     *)
+(*                 ImageCopy (image.go:imageCopyOpt, blob.go:BlobCopy),    *)
+(*                 also inside one registry (BlobMount with from=)         *)
 (*                                                                         *)
 (* Environment: every server is free to answer any request with any reply  *)
 (* of the configured alphabets (at most MaxFaults replies that are not the *)
@@ -147,7 +148,8 @@ HasIdt(k) == k \in {"tok", "uptok"}
 (***************************************************************************)
 S(reg, repo, meth, obj, mir, direct, onok, onfail) ==
   [reg |-> reg, repo |-> repo, meth |-> meth, obj |-> obj, mir |-> mir, direct |-> direct,
-   onok |-> onok, onfail |-> onfail, ign |-> FALSE, src |-> FALSE]
+   onok |-> onok, onfail |-> onfail, ign |-> FALSE, src |-> FALSE, n404 |-> FALSE]
+N404(st) == [st EXCEPT !.n404 = TRUE]   \* the object does not exist anywhere (target repository of a copy inside A)
 Ign(st) == [st EXCEPT !.ign = TRUE]     \* Req.IgnoreErr (anonymous blob mount): a back-off drops the host
 \* Req.BodyFunc streams the blob from the source registry: every repeated attempt first seeks the
 \* source reader back to 0, which is a new GET on the source (reghttp Resp.Seek -> Resp.next)
@@ -191,6 +193,18 @@ Prog(op) ==
                           S("A", "r1", "PUT", "u", FALSE, Loc, 99, 6),
                           S("A", "r1", "DELETE", "u", FALSE, Loc, 0, 0),       \* blobUploadCancel
                           S("A", "r1", "GET", "u", FALSE, Loc, 4, 6) >>        \* blobUploadStatus after a refused chunk
+    \* ImageCopy inside registry A from repository r1 to r3: blob.go:BlobCopy tries BlobMount with from=r1
+    \* (not IgnoreErr) and falls back to pull and push
+    [] op = "mount" -> << N404(S("A", "r3", "HEAD", "m", TRUE, <<>>, 2, 3)),
+                          S("A", "r1", "HEAD", "m", TRUE, <<>>, 99, 0),
+                          S("A", "r1", "GET", "m", TRUE, <<>>, 4, 0),
+                          N404(S("A", "r3", "HEAD", "c", TRUE, <<>>, 10, 5)),
+                          S("A", "r3", "POST", "c", FALSE, <<>>, 10, 6),          \* mount=<digest>&from=r1
+                          S("A", "r1", "GET", "c", TRUE, <<>>, 7, 0),
+                          Ign(S("A", "r3", "POST", "c", FALSE, <<>>, 9, 8)),     \* anonymous mount
+                          S("A", "r3", "POST", "u", FALSE, <<>>, 9, 0),
+                          Src(S("A", "r3", "PUT", "c", FALSE, Loc, 10, 0)),
+                          S("A", "r3", "PUT", "m", FALSE, <<>>, 99, 0) >>
     [] op = "copy"  -> CopyHead \o Chain("c", 4, 15, FALSE)
                        \o << S("B", "r1", "PUT", "m", FALSE, <<>>, 99, 0) >>
     [] op = "copyext" -> CopyHead \o Chain("c", 4, 15, FALSE) \o Chain("x", 15, 26, TRUE)
@@ -201,7 +215,8 @@ Step == P[pc]
 \* what serving the request normally amounts to (content of the model hosts: B is empty, the
 \* external layer x is absent from A and M, every other host has everything)
 Natural(st, to) ==
-  IF to = "B" THEN (IF st.meth \in {"HEAD", "GET"} THEN "404" ELSE "200")
+  IF st.n404 THEN "404"
+  ELSE IF to = "B" THEN (IF st.meth \in {"HEAD", "GET"} THEN "404" ELSE "200")
   ELSE IF st.direct = Loc THEN (IF to = sess THEN "200" ELSE "404")   \* the session lives where it was opened
   ELSE IF st.obj = "x" /\ to \in {"A", "M"} /\ ~(st.direct # <<>> /\ st.direct[1] = "A") THEN "404"
   ELSE "200"
